@@ -192,6 +192,8 @@ def check(ctx, R):
     _len(ctx, R, cls)
     _zeros(ctx, R, cls)
     _contains(ctx, R, cls)
+    store_lifetime_rules(ctx, R)
+    _put_early_returns(ctx, R, cls)
     R.assume("queue.Queue / asyncio.Queue are FIFO; dict iteration visits every item")
     R.undecided("equivalence with a reference model over operation histories; only key discipline, emptiness guards and FIFO-ness are static")
 
@@ -549,3 +551,91 @@ def _contains(ctx, R, cls):
         finds = [c for c in ast.walk(rets[0].value) if isinstance(c, ast.Call) and call_attr(c) == "find"]
         ok = len(finds) == 1 and [src(a) for a in finds[0].args] == ["%s[0]" % f.params[1], "%s[1]" % f.params[1]]
     R.check(ok, "CONTAINS", f.qualname, "`pair in store` == find(pair[0], pair[1]) has a pending packet", "__contains__ does not delegate to find(value[0], value[1])", f.loc())
+
+
+def store_lifetime_rules(ctx, R):
+    """An entry of the store lives from the first parked packet of its pair until that pair's CLSE is retrieved (or everything is
+    cleared on close/connect): who may delete entries, who may call clear()/clear_all(), what state the store has."""
+    from ..roles import all_roles
+    cls = ctx.pkg.cls("hidden_helpers._AdbPacketStore")
+    # (1) the store's state is the dict of dicts only
+    for name, m in sorted(cls.methods.items()):
+        if not m.params:
+            continue
+        selfn = m.params[0]
+        from ..util import attr_writes
+        for k, st, kind in attr_writes(m):
+            parts = k.split(".")
+            if parts[0] == selfn and len(parts) >= 2 and parts[1] != "_dict":
+                R.fail("STORE-state", "%s.%s" % (cls.qualname, parts[1]), "the packet store keeps additional state `%s` (written in %s): packets can survive clear()/clear_all() or bypass the per-pair queues" % (parts[1], name), m.loc(st))
+            if k == selfn + "._dict" and kind in ("assign", "aug") and name not in ("__init__", "clear_all"):
+                R.fail("STORE-state", "%s|%s" % (m.qualname, norm_stmt(st)), "the store's dict is rebound in %s (only the constructor and clear_all may)" % name, m.loc(st))
+        # (2) removal of entries only in clear / clear_all
+        removes = []
+        for n in walk_own(m.node):
+            if isinstance(n, ast.Delete):
+                for t in n.targets:
+                    b = t
+                    while isinstance(b, ast.Subscript):
+                        b = b.value
+                    if varkey(b) == selfn + "._dict":
+                        removes.append(n)
+            if isinstance(n, ast.Call) and isinstance(n.func, ast.Attribute) and n.func.attr in ("pop", "popitem", "clear"):
+                b = n.func.value
+                while isinstance(b, ast.Subscript):
+                    b = b.value
+                if varkey(b) == selfn + "._dict":
+                    removes.append(n)
+        for r in removes:
+            R.check(name in ("clear", "clear_all"), "STORE-lifetime", "%s|%s" % (m.qualname, norm_stmt(r)), "entries are removed only by clear()/clear_all()",
+                    "`%s` removes a store entry in %s: an entry must live until its stream's CLSE is retrieved (put() discards a CLSE whose pair has no entry, so a pruned live stream never sees its close)" % (norm_stmt(r), name), m.loc(r))
+    R.ok("STORE-state", cls.qualname, "the store's only state is the dict of dicts", cls.mod.relpath, trivial=True)
+    # (3) who may call clear / clear_all
+    clear, clear_all = cls.methods.get("clear"), cls.methods.get("clear_all")
+    T = None
+    for roles in all_roles(ctx):
+        for cs in ctx.cg.callers_of(clear_all) if clear_all else []:
+            if cs.func.mod is roles.mod:
+                ok = cs.func in (roles.io_close, roles.io_connect)
+                R.check(ok, "STORE-lifetime", "%s|clear_all" % cs.func.qualname, "clear_all() is called on close/connect only",
+                        "%s wipes the whole packet store: packets parked for other live streams are lost" % cs.func.qualname, cs.func.loc(cs.node))
+        for cs in ctx.cg.callers_of(clear) if clear else []:
+            f = cs.func
+            if f.mod is not roles.mod:
+                continue
+            g = ctx.cfg(f)
+            df = ctx.df(f)
+            nodes = [n for n in g.nodes if any(c is cs.node for c in node_calls(n))]
+            ok = f is roles.pump and bool(nodes)
+            if ok:
+                n = nodes[0]
+                ok = any(fa[0][0] == "eq" and fa[1] is True and any("CLSE" in x for x in fa[0][1:]) for fa in df.facts(n))
+            R.check(ok, "STORE-lifetime", "%s|clear" % f.qualname, "a pair is forgotten by the pump only when its own CLSE was read off the wire",
+                    "%s forgets a store entry without the stream's CLSE having been received" % f.qualname, f.loc(cs.node))
+    for cs in ctx.cg.callers_of(clear) if clear else []:
+        if cs.func.cls is cls:
+            R.check(cs.func.name == "get", "STORE-lifetime", "%s|clear" % cs.func.qualname, "inside the store only get() (on CLSE) forgets a pair", "%s forgets a store entry" % cs.func.qualname, cs.func.loc(cs.node))
+
+
+def _put_early_returns(ctx, R, cls):
+    """put(): the only packets that may be discarded are CLSE packets for a pair that has no entry (left unspecified, see C06)."""
+    f = cls.methods.get("put")
+    if f is None:
+        raise AnalysisError("PUT", "_AdbPacketStore.put not found")
+    g = ctx.cfg(f)
+    df = ctx.df(f)
+    selfn = f.params[0]
+    enq = [n for n in g.live_nodes() if any(call_attr(c) in ("put_nowait", "put", "append") for c in node_calls(n))]
+    d1 = key(_attr(selfn, "_dict"))
+    a1 = key(ast.Name(id="arg1", ctx=ast.Load()))
+    a0 = key(ast.Name(id="arg0", ctx=ast.Load()))
+    inner = key(ast.Subscript(value=_attr(selfn, "_dict"), slice=ast.Name(id="arg1", ctx=ast.Load()), ctx=ast.Load()))
+    for n in g.live_nodes():
+        if n.kind == "stmt" and isinstance(n.ast, ast.Return) and n in g.reach([g.entry], avoid=enq, exc=False, include_start=True):
+            facts = df.facts(n)
+            is_clse = any(fa[0][0] == "eq" and fa[1] is True and key(ast.Name(id="cmd", ctx=ast.Load())) in fa[0][1:] and any("CLSE" in x for x in fa[0][1:]) for fa in facts)
+            no_outer = any(fa[0] == ("in", a1, d1) and fa[1] is False for fa in facts)
+            no_inner = any(fa[0] == ("in", a0, inner) and fa[1] is False for fa in facts)
+            R.check(is_clse and (no_outer or no_inner), "PUT", "%s|discard|%s" % (f.qualname, " & ".join(sorted("%s%s" % ("" if fa[1] else "not ", fa[0][0]) for fa in facts))),
+                    "a packet is discarded only if it is a CLSE for a pair without an entry",
+                    "put() can discard a packet that is not (a CLSE for a pair that has no entry): a pair with an existing (possibly drained) queue, or a non-CLSE packet, loses data", f.loc(n.ast))
